@@ -40,6 +40,7 @@ REQ  == "request"          \* service_request_account
 FEEP == "feepool"          \* service_fee_collector (tax + slashed deposits)
 MOD  == "verif"            \* the harness-owned callback module
 BadNames == {"", "9bad"}   \* service names rejected by ValidateServiceName
+PriceDenoms == {D, "btc"}  \* denoms with a positive supply (binding.go validatePricing)
 
 UsersOf(t) == DOMAIN t.bal \ {DEP, REQ, FEEP}
 
@@ -48,7 +49,7 @@ ReqId(c, n, i) == c \o "-" \o ToString(n) \o "-" \o ToString(i)
 
 NoEv == [name |-> "Init", who |-> "", svc |-> "", prov |-> "", provs |-> <<>>, ctx |-> "", req |-> "",
          amt |-> 0, price |-> 0, tStart |-> 0, tEnd |-> 0, tDisc |-> 4, vVol |-> 0, vDisc |-> 4,
-         setp |-> FALSE, qos |-> 0, timeout |-> 0, repeated |-> FALSE, freq |-> 0, total |-> 0,
+         setp |-> FALSE, pdenom |-> "stake", qos |-> 0, timeout |-> 0, repeated |-> FALSE, freq |-> 0, total |-> 0,
          thr |-> 0, paused0 |-> FALSE, okres |-> TRUE, to |-> "", dt |-> 1, rank |-> 0,
          ok |-> TRUE, panic |-> FALSE, halt |-> FALSE, cbs |-> <<>>, scbs |-> <<>>]
 
@@ -100,8 +101,15 @@ PricingOK(e) ==
   /\ e.price >= 0
   /\ e.tDisc = 4 \/ (e.tDisc \in 1..3 /\ e.tStart >= 0 /\ e.tEnd > e.tStart)
   /\ e.vDisc = 4 \/ (e.vDisc \in 1..3 /\ e.vVol >= 1)
+(* A price in another denom needs the oracle's exchange rate
+   (oracle_price.go GetExchangeRate).  No feed exists in the universe of this
+   specification, so every such lookup fails; GetMinDeposit skips the lookup
+   for a zero price. *)
+NeedsRate(pr) == pr.pdenom # D
+MinDepErr(pr) == pr.pdenom # D /\ pr.price # 0
+
 PricingOf(e) ==
-  [price |-> e.price,
+  [price |-> e.price, pdenom |-> e.pdenom,
    tStart |-> IF e.tDisc = 4 THEN 0 ELSE e.tStart, tEnd |-> IF e.tDisc = 4 THEN 0 ELSE e.tEnd,
    tDisc |-> e.tDisc, vVol |-> IF e.vDisc = 4 THEN 0 ELSE e.vVol, vDisc |-> e.vDisc]
 
@@ -128,6 +136,8 @@ DoBind(s, e) ==
   ELSE IF p \in DOMAIN s.owner /\ s.owner[p] # o THEN Fail(s)
   ELSE IF e.amt <= 0 THEN Fail(s)                       \* validateDeposit: one coin of the base denom
   ELSE IF e.qos > s.params.maxTimeout THEN Fail(s)
+  ELSE IF e.pdenom \notin PriceDenoms THEN Fail(s)         \* validatePricing
+  ELSE IF MinDepErr(PricingOf(e)) THEN FailW(s, "no_rate")
   ELSE IF e.amt < MinDep(s, e.price) THEN Fail(s)
   ELSE IF BalOf(s, o) < e.amt THEN Fail(s)
   ELSE
@@ -153,7 +163,9 @@ DoUpdateBinding(s, e) ==
                 ELSE b1
           updated == e.qos # 0 \/ add > 0 \/ e.setp
       IN
-      IF b.available /\ updated /\ b2.deposit < MinDep(s, b2.price) THEN Fail(s)
+      IF e.setp /\ e.pdenom \notin PriceDenoms THEN Fail(s)
+      ELSE IF b.available /\ updated /\ MinDepErr(b2) THEN FailW(s, "no_rate")
+      ELSE IF b.available /\ updated /\ b2.deposit < MinDep(s, b2.price) THEN Fail(s)
       ELSE IF BalOf(s, e.who) < add THEN Fail(s)
       ELSE Done(Pay(PutBind(s, e.svc, e.prov, b2), e.who, DEP, add))
 
@@ -181,6 +193,7 @@ DoEnable(s, e) ==
         add == IF e.amt > 0 THEN e.amt ELSE 0 IN
     IF e.who # b.owner THEN FailW(s, "unauthorized")
     ELSE IF b.available THEN Fail(s)
+    ELSE IF MinDepErr(b) THEN FailW(s, "no_rate")
     ELSE IF b.deposit + add < MinDep(s, b.price) THEN Fail(s)
     ELSE IF BalOf(s, e.who) < add THEN Fail(s)
     ELSE Done(Pay(PutBind(s, e.svc, e.prov,
@@ -374,7 +387,7 @@ ExpireReq(s, rid) ==
               LET b == s.bind[c.svc][p]
                   sl == (b.deposit * s.params.slashNum) \div s.params.slashDen
                   dep == b.deposit - sl
-                  off == b.available /\ dep < MinDep(s, b.price)
+                  off == b.available /\ (MinDepErr(b) \/ dep < MinDep(s, b.price))
               IN IF BalOf(s, DEP) < sl THEN s
                  ELSE PutBind(Pay(s, DEP, FEEP, sl), c.svc, p,
                               [b EXCEPT !.deposit = dep,
@@ -424,12 +437,22 @@ Eligible(s, c) ==
 
 SumSeq(q) == SumOver(q, DOMAIN q)
 
+(* FilterServiceProviders fails as soon as it meets a usable provider whose
+   price needs an exchange rate *)
+RateError(s, c) ==
+  \E i \in DOMAIN c.providers :
+    LET p == c.providers[i] IN
+    /\ HasBind(s, c.svc, p) /\ s.bind[c.svc][p].available
+    /\ s.bind[c.svc][p].qos <= c.timeout /\ NeedsRate(s.bind[c.svc][p])
+
 (* newRequestBatchHandler.  Returns [st, scbs, over]. *)
 NewBatch(s, id) ==
   IF id \notin DOMAIN s.ctx THEN [st |-> DelNew(s, id, s.h), scbs |-> <<>>, over |-> 0]
   ELSE
     LET c == s.ctx[id] IN
     IF c.state # "running" THEN [st |-> DelNew(s, id, s.h), scbs |-> <<>>, over |-> 0]
+    \* F20: the handler returns before DeleteNewRequestBatch
+    ELSE IF RateError(s, c) THEN [st |-> s, scbs |-> <<>>, over |-> 0]
     ELSE
       LET el == Eligible(s, c)
           fees == [i \in DOMAIN el |-> FeeOf(s.bind[c.svc][el[i]], s.now, VolOf(s, c.svc, el[i], c.consumer))]
@@ -527,6 +550,9 @@ Apply(s, e) ==
 (*   intr[c]          c was seen not running since its last batch          *)
 (*   cbn[c][n]        response-callback firings for batch n of c           *)
 (*   expd[c][n]       times batch n of c was observed completing           *)
+(*   stale[c]         finding F20 observed on c: its due new-batch entry   *)
+(*                    survived an end-block while a usable provider of c   *)
+(*                    was priced in a denom that needs an exchange rate    *)
 (*   f4               cumulative overcharge attributable to finding F4:    *)
 (*                    sum over created requests of (list price - fee)      *)
 (***************************************************************************)
@@ -552,8 +578,12 @@ F4Step(s, e, t) ==
   THEN SumOver([r \in NewReqs(s, t) |-> ListPrice(s, t, r) - t.req[r].fee], NewReqs(s, t))
   ELSE 0
 
+StaleNow(s, e, t, id) ==
+  /\ e.name = "EndBlock" /\ <<s.h, id>> \in t.newQ
+  /\ id \in DOMAIN s.ctx /\ s.ctx[id].state = "running" /\ RateError(s, s.ctx[id])
+
 GhostInit == [ans |-> EmptyF, exp |-> EmptyF, batchAt |-> EmptyF, modified |-> EmptyF,
-              intr |-> EmptyF, cbn |-> EmptyF, expd |-> EmptyF, f4 |-> 0]
+              intr |-> EmptyF, cbn |-> EmptyF, expd |-> EmptyF, stale |-> EmptyF, f4 |-> 0]
 
 CountCbs(e, id, n) == Cardinality({i \in DOMAIN e.cbs : e.cbs[i].ctx = id /\ e.cbs[i].batch = n})
 
@@ -584,6 +614,7 @@ GhostStep(g, s, e, t) ==
                IF Completes(s, t, id)
                THEN bump(Get(g.expd, id, EmptyF), id, s.ctx[id].batch, 1)
                ELSE Get(g.expd, id, EmptyF)],
+   stale |-> [id \in cs |-> Get(g.stale, id, FALSE) \/ StaleNow(s, e, t, id)],
    f4 |-> g.f4 + F4Step(s, e, t)]
 
 -----------------------------------------------------------------------------
@@ -742,8 +773,10 @@ C08_OneShot(s, e, t) ==
 
 (* C08: schedule of a repeated context.  g0 = the ghost state BEFORE the step *)
 (* relax = TRUE: modulo finding F21 (a context paused across the expiry of its
-   last batch is not completed; Start then issues batches beyond the total) *)
-ScheduleX(s, e, t, g0, relax) ==
+   last batch is not completed; Start then issues batches beyond the total);
+   relax20 = TRUE: modulo finding F20 (no batch is issued and the queue entry
+   is left behind when provider filtering fails for lack of an exchange rate) *)
+ScheduleX(s, e, t, g0, relax, relax20) ==
   /\ \A id \in DOMAIN s.ctx \cap DOMAIN t.ctx :
        LET c == s.ctx[id]
            d == t.ctx[id]
@@ -761,10 +794,10 @@ ScheduleX(s, e, t, g0, relax) ==
           /\ (e.name = "EndBlock" /\ steady /\ d.batch = n + 1) => s.h = at[n] + c.freq
           \* ... and it is issued then (unless the consumer cannot pay)
           /\ (e.name = "EndBlock" /\ steady /\ (c.total < 0 \/ n < c.total) /\ s.h = at[n] + c.freq)
-               => (d.batch = n + 1 \/ d.state = "paused")
+               => (d.batch = n + 1 \/ d.state = "paused" \/ (relax20 /\ RateError(s, c)))
           \* a queued new batch of a running context is issued at its height
           /\ (e.name = "EndBlock" /\ <<s.h, id>> \in s.newQ /\ c.state = "running")
-               => (d.batch = n + 1 \/ d.state = "paused")
+               => (d.batch = n + 1 \/ d.state = "paused" \/ (relax20 /\ RateError(s, c)))
           \* the end-blocker changes the state only by pausing for lack of funds
           /\ (e.name = "EndBlock") => d.state \in {c.state, "paused"}
   \* after Start the next batch is queued for this very block unless one is scheduled
@@ -777,8 +810,10 @@ ScheduleX(s, e, t, g0, relax) ==
        /\ \/ s.ctx[id].state = "completed"
           \/ (s.ctx[id].state = "running" /\ s.ctx[id].total >= 0 /\ s.ctx[id].batch >= s.ctx[id].total)
 
-C08_Schedule(s, e, t, g0) == ScheduleX(s, e, t, g0, FALSE)
-C08_Schedule_ModF21(s, e, t, g0) == ScheduleX(s, e, t, g0, TRUE)
+C08_Schedule(s, e, t, g0) == ScheduleX(s, e, t, g0, FALSE, FALSE)
+C08_Schedule_ModF21(s, e, t, g0) == ScheduleX(s, e, t, g0, TRUE, FALSE)
+C08_Schedule_ModF20(s, e, t, g0) == ScheduleX(s, e, t, g0, FALSE, TRUE)
+C08_Schedule_ModF(s, e, t, g0) == ScheduleX(s, e, t, g0, TRUE, TRUE)
 
 C08_Authority(s, e) ==
   /\ (e.name \in {"Pause", "Start", "Kill", "Update"} /\ e.ok) =>
@@ -819,9 +854,9 @@ C08_Funds(s, e, t) ==
 
 -----------------------------------------------------------------------------
 (* C13 for the service queues *)
-C13_QueueSound(t) ==
+QueueSoundX(t, g, relax20) ==
   /\ \A q \in t.newQ :
-       /\ q[2] \in DOMAIN t.ctx /\ q[1] >= t.h
+       /\ q[2] \in DOMAIN t.ctx /\ (q[1] >= t.h \/ (relax20 /\ Get(g.stale, q[2], FALSE)))
        /\ q[2] \in DOMAIN t.newH /\ t.newH[q[2]] = q[1]
   /\ \A q \in t.expQ :
        /\ q[2] \in DOMAIN t.ctx /\ q[1] >= t.h
@@ -834,6 +869,8 @@ C13_QueueSound(t) ==
   /\ \A q1, q2 \in t.newQ : q1[2] = q2[2] => q1 = q2
   /\ \A q1, q2 \in t.expQ : q1[2] = q2[2] => q1 = q2
   /\ DOMAIN t.newH \cap DOMAIN t.expH = {}
+C13_QueueSound(t) == QueueSoundX(t, GhostInit, FALSE)
+C13_QueueSound_ModF20(t, g) == QueueSoundX(t, g, TRUE)
 
 C13_QueueComplete(t) ==
   /\ \A id \in DOMAIN t.ctx :
@@ -842,9 +879,10 @@ C13_QueueComplete(t) ==
   /\ \A r \in t.active :
        r \in DOMAIN t.req /\ <<t.req[r].expH, t.req[r].ctx>> \in t.expQ
 
-C13_OnceOnTime(s, e, t, g) ==
+OnceOnTimeX(s, e, t, g, relax20) ==
   /\ (e.name = "EndBlock") =>
-       /\ \A q \in t.newQ \cup t.expQ : q[1] > s.h
+       /\ \A q \in t.newQ : q[1] > s.h \/ (relax20 /\ Get(g.stale, q[2], FALSE))
+       /\ \A q \in t.expQ : q[1] > s.h
        /\ \A q \in s.expQ : q[1] # s.h => q \in t.expQ
        /\ \A q \in s.newQ : q[1] # s.h => q \in t.newQ
   /\ (e.name # "EndBlock") =>
@@ -857,6 +895,8 @@ C13_OnceOnTime(s, e, t, g) ==
             /\ e.name = "EndBlock" /\ t.ctx[id].batch = s.ctx[id].batch + 1
             /\ (<<s.h, id>> \in s.newQ \/ <<s.h, id>> \in s.expQ)
   /\ \A id \in DOMAIN g.expd : \A n \in DOMAIN g.expd[id] : g.expd[id][n] <= 1
+C13_OnceOnTime(s, e, t, g) == OnceOnTimeX(s, e, t, g, FALSE)
+C13_OnceOnTime_ModF20(s, e, t, g) == OnceOnTimeX(s, e, t, g, TRUE)
 
 C13_NoHalt(e) == ~e.halt
 
@@ -904,7 +944,8 @@ SetupEvent(s) ==
            b == SetupSpec[i]
        IN [E("Bind", b.o) EXCEPT !.svc = SVC, !.prov = b.p, !.amt = b.dep, !.price = b.price,
                                  !.tDisc = b.tDisc, !.tStart = b.tStart, !.tEnd = b.tEnd,
-                                 !.vDisc = b.vDisc, !.vVol = b.vVol, !.qos = b.qos]
+                                 !.vDisc = b.vDisc, !.vVol = b.vVol, !.qos = b.qos,
+                                 !.pdenom = IF "pdenom" \in DOMAIN b THEN b.pdenom ELSE D]
 Setup == ~SetupDone(st) /\ Step(SetupEvent(st))
 
 Provs == {SetupSpec[i].p : i \in DOMAIN SetupSpec}
@@ -976,6 +1017,9 @@ SetupA == << BSpec("u1", "u1", 8, 4, 2, 0, 1000, 4, 0, 1), BSpec("u2", "u2", 6, 
 SetupB == << BSpec("u1", "u1", 8, 4, 2, 0, 1000, 4, 0, 1), BSpec("u2", "u1", 6, 3, 4, 0, 0, 2, 1, 1) >>
 (* no discounts (F4 cannot occur) *)
 SetupC == << BSpec("u1", "u1", 8, 4, 4, 0, 0, 4, 0, 1), BSpec("u2", "u2", 6, 3, 4, 0, 0, 4, 0, 2) >>
+(* u2 priced 0btc: needs the (absent) exchange rate — finding F20 *)
+SetupD == << BSpec("u1", "u1", 8, 4, 2, 0, 1000, 4, 0, 1),
+             [pdenom |-> "btc"] @@ BSpec("u2", "u2", 6, 0, 4, 0, 0, 4, 0, 1) >>
 ProvSeqsA == { <<"u1">>, <<"u1", "u2">> }
 ProvSeqsB == { <<"u1">>, <<"u2", "u1">>, <<"u1", "u2">> }
 UpdateSpecsNone == {}
@@ -999,6 +1043,7 @@ Inv_C07_RequestEscrow == C07_RequestEscrow(st)
 Inv_C07_RequestEscrow_ModF4 == C07_RequestEscrow_ModF4(st, gh)
 Inv_C07_OwnerTally == C07_OwnerTally(st)
 Inv_C13_QueueSound == C13_QueueSound(st)
+Inv_C13_QueueSound_ModF20 == C13_QueueSound_ModF20(st, gh)
 Inv_C13_QueueComplete == C13_QueueComplete(st)
 Inv_C13_NoHalt == C13_NoHalt(ev)
 
@@ -1014,10 +1059,12 @@ Act_C08_RespondGuards == [][C08_RespondGuards(st, ev')]_vars
 Act_C08_OneShot == [][C08_OneShot(st, ev', st')]_vars
 Act_C08_Schedule == [][C08_Schedule(st, ev', st', gh)]_vars
 Act_C08_Schedule_ModF21 == [][C08_Schedule_ModF21(st, ev', st', gh)]_vars
+Act_C08_Schedule_ModF == [][C08_Schedule_ModF(st, ev', st', gh)]_vars
 Act_C08_Authority == [][C08_Authority(st, ev')]_vars
 Act_C08_Callback == [][C08_Callback(st, ev', st', gh')]_vars
 Act_C08_Funds == [][C08_Funds(st, ev', st')]_vars
 Act_C13_OnceOnTime == [][C13_OnceOnTime(st, ev', st', gh')]_vars
+Act_C13_OnceOnTime_ModF20 == [][C13_OnceOnTime_ModF20(st, ev', st', gh')]_vars
 
 (* VIEW for the exhaustive configs: ghosts and the last event are functions of
    the path *)
